@@ -3,6 +3,7 @@
 import importlib.metadata
 import os
 import shlex
+import stat
 import warnings
 from collections.abc import Iterable
 from pathlib import Path
@@ -259,15 +260,17 @@ class CodeBase:
             base's listed directories and does not match any exclude
             pattern(s).
         """
+        # Only a path that names a regular file can be part of the code
+        # base: the operating system decides this for the path as given
+        # (a symbolic link loop, "file.c/" or "missing/../file.c" name
+        # nothing; a directory or a FIFO is not a source file).
+        try:
+            if not stat.S_ISREG(os.stat(path).st_mode):
+                return False
+        except (OSError, ValueError):
+            return False
+
         path = Path(path).resolve()
-
-        # Files that don't exist aren't part of the code base.
-        if not path.exists():
-            return False
-
-        # Directories cannot be source files.
-        if path.is_dir():
-            return False
 
         # Files with unrecognized extensions are not source files.
         if not codebasin.source.is_source_file(path):
